@@ -40,17 +40,19 @@ import (
 
 // Outcome of one upstream attempt, as scripted for the upstream peer.
 const (
-	upReply200    = "reply-ok"              // bolt success response
-	upReply5xx    = "reply-err"             // bolt response with status ServerException (maps to 500)
-	upReplyBusy   = "reply-busy"            // bolt ServerThreadpoolBusy (maps to 503)
-	upClose       = "remote-close"          // upstream closes the connection after receiving the request
-	upSilent      = "silent"                // never answers
-	upConnectFail = "connect-fail"          // the connection to this attempt's host fails to connect
-	upConnectTO   = "connect-timeout"       // ... times out
-	upReplySplit  = "reply-ok-split"        // success response delivered in two reads (header part / rest)
-	upReplyDup    = "reply-ok-dup"          // the success response is delivered twice
-	upReplyUnk    = "reply-unknown-then-ok" // a response with an id nobody is waiting for, then the real one
-	upLateOK      = "late-ok"               // answers only after the downstream already got its (timeout) reply: a late reply
+	upReply200    = "reply-ok"                     // bolt success response
+	upReply5xx    = "reply-err"                    // bolt response with status ServerException (maps to 500)
+	upReplyBusy   = "reply-busy"                   // bolt ServerThreadpoolBusy (maps to 503)
+	upClose       = "remote-close"                 // upstream closes the connection after receiving the request
+	upSilent      = "silent"                       // never answers
+	upConnectFail = "connect-fail"                 // the connection to this attempt's host fails to connect
+	upConnectTO   = "connect-timeout"              // ... times out
+	upReplySplit  = "reply-ok-split"               // success response delivered in two reads (header part / rest)
+	upReplyDup    = "reply-ok-dup"                 // the success response is delivered twice
+	upReplyUnk    = "reply-unknown-then-ok"        // a response with an id nobody is waiting for, then the real one
+	upLateOK      = "late-ok"                      // answers only after the downstream already got its (timeout) reply: a late reply
+	upReplyNoBody = "reply-ok-nobody"              // success response without a body
+	upUnkNoBody   = "reply-unknown-then-ok-nobody" // a response (with body) nobody waits for, then the real, body-less one
 )
 
 type hpRequest struct {
@@ -93,6 +95,7 @@ type hpScenario struct {
 	DirectStatus int                    `json:"direct_status,omitempty"`
 	// the host that served the first attempt is marked unhealthy (active health check failed) just before
 	// the peer acts on that attempt: a retry that re-runs host selection must avoid it
+	HijackCode     int    `json:"hijack_code,omitempty"` // status the scripted filters answer with (default 404)
 	EjectFirstHost bool   `json:"eject_first_host,omitempty"`
 	DirectBody     string `json:"direct_body,omitempty"`
 	Bound          int    `json:"bound"`
@@ -703,6 +706,12 @@ func (h *hpRun) onUpstreamConn(c *vfake.Conn) {
 				c.InjectRead(hpBoltResponse(fr.ID, bolt.ResponseStatusSuccess, fr.Token, true))
 			case "reply-ok+k1":
 				b := hpEncode(bolt.NewRpcResponse(fr.ID, bolt.ResponseStatusSuccess, hpHeader(map[string]string{"token": fr.Token, "k1": "old"}), buffer.NewIoBufferString("resp-of-"+fr.Token)))
+				c.InjectRead(b)
+			case upReplyNoBody:
+				c.InjectRead(hpBoltResponse(fr.ID, bolt.ResponseStatusSuccess, fr.Token, false))
+			case upUnkNoBody:
+				// both frames in one read, as they would sit in the socket buffer
+				b := append(hpBoltResponse(fr.ID+7777, bolt.ResponseStatusSuccess, "nobody", true), hpBoltResponse(fr.ID, bolt.ResponseStatusSuccess, fr.Token, false)...)
 				c.InjectRead(b)
 			case upReplyDup:
 				c.InjectRead(hpBoltResponse(fr.ID, bolt.ResponseStatusSuccess, fr.Token, true))
